@@ -59,7 +59,10 @@ Lemma view_eq_refl f : view_eq f f.
 Proof. intros p. reflexivity. Qed.
 
 Lemma agree_view_eq f g : agree f g -> view_eq f g.
-Proof. intros H p. destruct p; unfold Model.view; try rewrite (H _ eq_refl); reflexivity. Qed.
+Proof.
+  intros H p. destruct p as [|i|i|i]; unfold Model.view;
+    [rewrite (H PStatus eq_refl) | rewrite (H (PTa i) eq_refl) | rewrite (H (PPoint i) eq_refl) | ]; reflexivity.
+Qed.
 
 (* ------------------------------------------------------------------ *)
 (* what the readers return on what the writers write *)
@@ -167,7 +170,7 @@ Qed.
 Lemma inv_status_ok f : Inv f -> status_view (f PStatus) <> SVFailed.
 Proof.
   intros [_ I2]. destruct (f PStatus) as [b|] eqn:E; [|discriminate].
-  destruct (I2 b E) as (t & Ht & ->). rewrite (status_view_written t Ht). discriminate.
+  destruct (I2 b eq_refl) as (t & Ht & ->). rewrite (status_view_written t Ht). discriminate.
 Qed.
 
 (* ------------------------------------------------------------------ *)
@@ -178,25 +181,27 @@ Lemma inplace_crash p d f n cut :
   let g := scrash n cut [Create p; Write p d] f in
   (forall q, g q = f q) \/ exists c, forall q, g q = supd f p (Some (firstn c d)) q.
 Proof.
-  intros g. subst g. unfold scrash, crash_at.
+  intros g. subst g. unfold crash_at.
   destruct n as [|[|n]]; cbn [firstn nth_error].
   - left. intros q. destruct cut; reflexivity.
   - right. destruct cut as [c|].
     + exists (N.to_nat c). intros q. cbn [tear run_ops fold_left step].
-      unfold supd. rewrite (upd_same path_eqb path_eqb_spec). cbn [app].
+      rewrite (upd_same path_eqb path_eqb_spec). cbn [app].
       unfold upd. destruct (path_eqb q p); reflexivity.
     + exists O. intros q. cbn [run_ops fold_left step firstn]. reflexivity.
   - right. exists (length d). intros q.
     assert (E : run_ops path_eqb [Create p; Write p d] f q = supd f p (Some d) q).
     { cbn [run_ops fold_left step]. rewrite (upd_same path_eqb path_eqb_spec). cbn [app].
-      unfold supd, upd. destruct (path_eqb q p); reflexivity. }
-    rewrite firstn_all. destruct cut; exact E.
+      unfold upd. destruct (path_eqb q p); reflexivity. }
+    rewrite firstn_all, firstn_nil.
+    assert (En : nth_error (@nil (op path)) n = None) by (destruct n; reflexivity). rewrite En.
+    destruct cut; exact E.
 Qed.
 
 Lemma inplace_run p d f q : srun [Create p; Write p d] f q = supd f p (Some d) q.
 Proof.
-  unfold srun. cbn [run_ops fold_left step]. rewrite (upd_same path_eqb path_eqb_spec). cbn [app].
-  unfold supd, upd. destruct (path_eqb q p); reflexivity.
+  cbn [run_ops fold_left step]. rewrite (upd_same path_eqb path_eqb_spec). cbn [app].
+  unfold upd. destruct (path_eqb q p); reflexivity.
 Qed.
 
 (* temporary file: create, append the pieces *)
@@ -214,19 +219,19 @@ Qed.
 
 Lemma tmp_pre_content tmp ds f : srun (tmp_pre tmp ds) f (PTmp tmp) = Some (concat ds).
 Proof.
-  unfold srun, tmp_pre. rewrite run_ops_cons.
+  unfold tmp_pre. rewrite run_ops_cons.
   rewrite (run_writes path_eqb path_eqb_spec (PTmp tmp) ds _ []); [reflexivity|].
   cbn [step]. apply (upd_same path_eqb path_eqb_spec).
 Qed.
 
 Lemma tmp_pre_agree tmp ds f : agree (srun (tmp_pre tmp ds) f) f.
 Proof.
-  intros q Hq. apply (run_ops_frame path_eqb path_eqb_spec). apply tmp_pre_untouched; exact Hq.
+  intros q Hq. apply (run_ops_frame path_eqb). apply tmp_pre_untouched; exact Hq.
 Qed.
 
 Lemma tmp_pre_crash_agree tmp ds f n cut : agree (scrash n cut (tmp_pre tmp ds) f) f.
 Proof.
-  intros q Hq. apply (crash_at_frame path_eqb path_eqb_spec). apply tmp_pre_untouched; exact Hq.
+  intros q Hq. apply (crash_at_frame path_eqb). apply tmp_pre_untouched; exact Hq.
 Qed.
 
 (* ... then rename over [dst] *)
@@ -234,14 +239,14 @@ Lemma tmp_rename_run tmp ds dst f :
   is_tmp dst = false ->
   agree (srun (tmp_pre tmp ds ++ [Rename (PTmp tmp) dst]) f) (supd f dst (Some (concat ds))).
 Proof.
-  intros Hd q Hq. unfold srun. rewrite run_ops_app.
-  fold (srun (tmp_pre tmp ds) f). set (f1 := srun (tmp_pre tmp ds) f).
+  intros Hd q Hq. rewrite run_ops_app.
+  set (f1 := srun (tmp_pre tmp ds) f).
   cbn [run_ops fold_left step].
   assert (N1 : path_eqb (PTmp tmp) dst = false) by (destruct dst; cbn in *; congruence).
   rewrite N1. unfold f1 at 1. rewrite tmp_pre_content.
   assert (N2 : q <> PTmp tmp) by (intros ->; discriminate).
   rewrite (upd_other path_eqb path_eqb_spec) by exact N2.
-  unfold supd, upd. destruct (path_eqb q dst); [reflexivity|].
+  unfold upd. destruct (path_eqb q dst); [reflexivity|].
   apply tmp_pre_agree; exact Hq.
 Qed.
 
@@ -250,7 +255,7 @@ Lemma tmp_rename_crash tmp ds dst f n cut :
   let g := scrash n cut (tmp_pre tmp ds ++ [Rename (PTmp tmp) dst]) f in
   agree g f \/ agree g (supd f dst (Some (concat ds))).
 Proof.
-  intros Hd g. subst g. unfold scrash.
+  intros Hd g. subst g.
   destruct (Nat.lt_ge_cases n (length (tmp_pre tmp ds))) as [Hlt|Hge].
   - left. rewrite crash_at_app_l by exact Hlt. apply tmp_pre_crash_agree.
   - rewrite crash_at_app_r by exact Hge.
@@ -258,14 +263,14 @@ Proof.
     + left. unfold crash_at. cbn [firstn nth_error tear run_ops fold_left].
       destruct cut; apply tmp_pre_agree.
     + right. rewrite crash_at_end by (cbn [length]; lia).
-      pose proof (tmp_rename_run tmp ds dst f Hd) as H. unfold srun in H. rewrite run_ops_app in H. exact H.
+      pose proof (tmp_rename_run tmp ds dst f Hd) as H. rewrite run_ops_app in H. exact H.
 Qed.
 
 (* ... or drop it *)
 Lemma tmp_remove_crash tmp ds f n cut :
   agree (scrash n cut (tmp_pre tmp ds ++ [Remove (PTmp tmp)]) f) f.
 Proof.
-  intros q Hq. apply (crash_at_frame path_eqb path_eqb_spec).
+  intros q Hq. apply (crash_at_frame path_eqb).
   rewrite forallb_app. rewrite tmp_pre_untouched by exact Hq. cbn [forallb touches].
   destruct q; cbn in *; try reflexivity; discriminate.
 Qed.
@@ -312,7 +317,7 @@ Proof.
     split.
     + apply (inv_feq (supd f (PPoint i) (Some (firstn c (enc_header h))))); [exact E|].
       apply inv_supd_point; [exact HI | left; exact Hp].
-    + right. intros p. unfold Model.view.
+    + right. unfold prog. intros p. unfold Model.view.
       destruct p as [|j|j|j]; try (rewrite E, (inplace_run (PPoint i)); rewrite !supd_other by discriminate; reflexivity).
       * rewrite E, (inplace_run (PPoint i)).
         destruct (N.eqb_spec j i) as [->|Hn].
@@ -331,7 +336,7 @@ Lemma header_inplace_run i h t f :
 Proof.
   intros Hh Hs HI.
   destruct (header_inplace i h t f 2 None Hh Hs HI) as [H _].
-  unfold scrash in H. rewrite crash_at_end in H by (cbn; lia). exact H.
+  rewrite crash_at_end in H by (cbn; lia). exact H.
 Qed.
 
 Lemma wf_header_la uri nt t t' :
@@ -372,8 +377,8 @@ Qed.
 Lemma inv_supd_none f p : Inv f -> Inv (supd f p None).
 Proof.
   intros [I1 I2]. split.
-  - intros i b E. unfold supd, upd in E. destruct (path_eqb (PPoint i) p); [discriminate|]. apply (I1 i b E).
-  - intros b E. unfold supd, upd in E. destruct (path_eqb PStatus p); [discriminate|]. apply I2; exact E.
+  - intros i b E. unfold upd in E. destruct (path_eqb (PPoint i) p); [discriminate|]. apply (I1 i b E).
+  - intros b E. unfold upd in E. destruct (path_eqb PStatus p); [discriminate|]. apply I2; exact E.
 Qed.
 
 Theorem action_crash a f n cut :
@@ -383,8 +388,8 @@ Theorem action_crash a f n cut :
 Proof.
   intros Hw HI. unfold Model.run_action.
   assert (Hnil : forall g, g = scrash n cut [] f -> Inv g /\ (view_eq g f \/ view_eq g (srun [] f))).
-  { intros g ->. unfold scrash, crash_at. rewrite firstn_nil.
-    assert (E : nth_error (@nil sop) n = None) by (destruct n; reflexivity). rewrite E.
+  { intros g ->. unfold crash_at. rewrite firstn_nil.
+    assert (E : nth_error (@nil (op path)) n = None) by (destruct n; reflexivity). rewrite E.
     assert (G : (match cut with Some _ => run_ops path_eqb [] f | None => run_ops path_eqb [] f end) = f)
       by (destruct cut; reflexivity).
     rewrite G. split; [exact HI | left; apply view_eq_refl]. }
@@ -436,21 +441,21 @@ Proof.
     cbn [Model.steps_of]. apply tmp_action; [reflexivity | exact HI |].
     apply inv_supd_other; [exact I | exact HI].
   - (* remove *)
-    cbn [Model.steps_of ops_of map k_op]. unfold scrash, crash_at.
+    cbn [Model.steps_of ops_of map k_op]. unfold crash_at.
     destruct n as [|n]; cbn [firstn nth_error].
     + assert (G : (match cut with Some c => run_ops path_eqb (tear c (Remove p)) (run_ops path_eqb [] f)
                                 | None => run_ops path_eqb [] f end) = f) by (destruct cut; reflexivity).
       rewrite G. split; [exact HI | left; apply view_eq_refl].
     + rewrite firstn_nil.
-      assert (E : nth_error (@nil sop) n = None) by (destruct n; reflexivity). rewrite E.
+      assert (E : nth_error (@nil (op path)) n = None) by (destruct n; reflexivity). rewrite E.
       assert (G : (match cut with Some _ => run_ops path_eqb [Remove p] f | None => run_ops path_eqb [Remove p] f end)
                   = srun [Remove p] f) by (destruct cut; reflexivity).
       rewrite G. split; [|right; apply view_eq_refl].
-      unfold srun. cbn [run_ops fold_left step]. apply inv_supd_none; exact HI.
+      cbn [run_ops fold_left step]. apply inv_supd_none; exact HI.
   - (* a leftover temporary file *)
     cbn [Model.steps_of ops_of map k_op].
     assert (E : agree (scrash n cut [Create (PTmp tmp)] f) f).
-    { intros q Hq. apply (crash_at_frame path_eqb path_eqb_spec). cbn [forallb touches].
+    { intros q Hq. apply (crash_at_frame path_eqb). cbn [forallb touches].
       destruct q; cbn in *; try reflexivity; discriminate. }
     split; [apply (inv_agree f); [apply agree_sym; exact E | exact HI] | left; apply agree_view_eq; exact E].
 Qed.
@@ -459,7 +464,7 @@ Lemma action_inv a f : wf_action a = true -> Inv f -> Inv (run_action true a f).
 Proof.
   intros Hw HI.
   destruct (action_crash a f (length (ops_of (steps_of true a f))) None Hw HI) as [H _].
-  unfold scrash in H. rewrite crash_at_end in H by lia. exact H.
+  rewrite crash_at_end in H by lia. exact H.
 Qed.
 
 (* ------------------------------------------------------------------ *)
@@ -474,8 +479,8 @@ Theorem crash_atomic acts : forall f n cut,
   Inv g /\ exists j, (j <= length acts)%nat /\ view_eq g (run_actions true (firstn j acts) f).
 Proof.
   induction acts as [|a acts IH]; intros f n cut Hw HI g; subst g; unfold Model.crash_state.
-  - cbn [Model.steps_of_run ops_of map]. unfold scrash, crash_at. rewrite firstn_nil.
-    assert (E : nth_error (@nil sop) n = None) by (destruct n; reflexivity). rewrite E.
+  - cbn [Model.steps_of_run ops_of map]. unfold crash_at. rewrite firstn_nil.
+    assert (E : nth_error (@nil (op path)) n = None) by (destruct n; reflexivity). rewrite E.
     assert (G : (match cut with Some _ => run_ops path_eqb [] f | None => run_ops path_eqb [] f end) = f)
       by (destruct cut; reflexivity).
     rewrite G. split; [exact HI|]. exists O. split; [lia | apply view_eq_refl].
@@ -483,16 +488,15 @@ Proof.
     cbn [Model.steps_of_run]. unfold ops_of. rewrite map_app. fold (ops_of (steps_of true a f)).
     set (p1 := ops_of (steps_of true a f)).
     fold (ops_of (steps_of_run true acts (srun p1 f))).
-    unfold scrash.
     destruct (Nat.lt_ge_cases n (length p1)) as [Hlt|Hge].
     + rewrite crash_at_app_l by exact Hlt.
-      destruct (action_crash a f n cut Ha HI) as [H1 [H2|H2]]; fold p1 in H1, H2; unfold scrash in H1, H2.
+      destruct (action_crash a f n cut Ha HI) as [H1 [H2|H2]]; fold p1 in H1, H2.
       * split; [exact H1|]. exists O. split; [lia | exact H2].
       * split; [exact H1|]. exists 1%nat. split; [cbn [length]; lia | exact H2].
     + rewrite crash_at_app_r by exact Hge.
       pose proof (action_inv a f Ha HI) as HI1. unfold Model.run_action in HI1. fold p1 in HI1.
       destruct (IH (srun p1 f) (n - length p1)%nat cut Hw HI1) as [H1 (j & Hj & H2)].
-      unfold Model.crash_state, scrash in H1, H2.
+      unfold Model.crash_state in H1, H2.
       split; [exact H1|]. exists (S j). split; [cbn [length]; lia|].
       cbn [firstn]. rewrite run_actions_cons. exact H2.
 Qed.
@@ -505,8 +509,185 @@ Proof.
   rewrite run_actions_cons. apply IH; [exact Hw | apply action_inv; assumption].
 Qed.
 
-(* what the next process does with a point depends on the state only through
-   the views: two states with equal views are changed by an action into two
-   states with equal views (the temporary files aside) *)
+(* no reader of the next process fails on a crash state *)
+Theorem crash_not_blocked acts f n cut :
+  forallb wf_action acts = true -> Inv f ->
+  let g := crash_state true acts f n cut in
+  (forall i, point_ok (point_view (g (PPoint i)))) /\ status_view (g PStatus) <> SVFailed.
+Proof.
+  intros Hw HI g. destruct (crash_atomic acts f n cut Hw HI) as [HIg _]. fold g in HIg.
+  split; [intros i; apply inv_point_ok; exact HIg | apply inv_status_ok; exact HIg].
+Qed.
+
+(* ------------------------------------------------------------------ *)
+(* which prefix: the actions completed before the crash, or one more *)
+
+Fixpoint completed (acts : list action) (f : sfs) (n : nat) : nat :=
+  match acts with
+  | [] => O
+  | a :: rest =>
+      let p := ops_of (steps_of true a f) in
+      if (length p <=? n)%nat then S (completed rest (srun p f) (n - length p)) else O
+  end.
+
+Theorem crash_atomic_at acts : forall f n cut,
+  forallb wf_action acts = true -> Inv f ->
+  exists j, (j = completed acts f n \/ j = S (completed acts f n)) /\ (j <= length acts)%nat /\
+            view_eq (crash_state true acts f n cut) (run_actions true (firstn j acts) f).
+Proof.
+  induction acts as [|a acts IH]; intros f n cut Hw HI; unfold Model.crash_state.
+  - cbn [Model.steps_of_run ops_of map]. unfold crash_at. rewrite firstn_nil.
+    assert (E : nth_error (@nil (op path)) n = None) by (destruct n; reflexivity). rewrite E.
+    assert (G : (match cut with Some _ => run_ops path_eqb [] f | None => run_ops path_eqb [] f end) = f)
+      by (destruct cut; reflexivity).
+    rewrite G. exists O. split; [left; reflexivity|]. split; [cbn; lia | apply view_eq_refl].
+  - cbn [forallb] in Hw. apply andb_true_iff in Hw as [Ha Hw].
+    cbn [Model.steps_of_run completed]. unfold ops_of. rewrite map_app. fold (ops_of (steps_of true a f)).
+    set (p1 := ops_of (steps_of true a f)).
+    fold (ops_of (steps_of_run true acts (srun p1 f))).
+    destruct (Nat.leb_spec (length p1) n) as [Hge|Hlt].
+    + rewrite crash_at_app_r by exact Hge.
+      pose proof (action_inv a f Ha HI) as HI1. unfold Model.run_action in HI1. fold p1 in HI1.
+      destruct (IH (srun p1 f) (n - length p1)%nat cut Hw HI1) as (j & Hj & Hl & H2).
+      unfold Model.crash_state in H2.
+      exists (S j). split; [destruct Hj as [-> | ->]; [left | right]; reflexivity|].
+      split; [cbn [length]; lia|]. cbn [firstn]. rewrite run_actions_cons. exact H2.
+    + rewrite crash_at_app_l by exact Hlt.
+      destruct (action_crash a f n cut Ha HI) as [_ [H2|H2]]; fold p1 in H2.
+      * exists O. split; [left; reflexivity|]. split; [lia | exact H2].
+      * exists 1%nat. split; [right; reflexivity|]. split; [cbn [length]; lia | exact H2].
+Qed.
+
+(* ------------------------------------------------------------------ *)
+(* The next process: what an action makes of the store depends on the state
+   only through the views, so two states with equal views stay view-equal
+   under every further action (in particular: the crash state and the
+   uninterrupted state it is view-equal to). *)
+
+Definition absent_view (p : path) : aview :=
+  match p with
+  | PPoint _ => AVPoint PVAbsent | PStatus => AVStatus SVAbsent | PTa _ => AVTa None | PTmp _ => AVTmp
+  end.
+
+Definition post_view (a : action) (p : path) (old : aview) : aview :=
+  match a with
+  | AOpen i _ _ _ =>
+      if path_eqb p (PPoint i) then
+        match old with AVPoint (PVData m objs) => old | _ => AVPoint PVNone end
+      else old
+  | AUpdate i _ _ _ _ m objs commit =>
+      if commit && path_eqb p (PPoint i) then AVPoint (PVData m objs) else old
+  | AReject i _ _ _ => if path_eqb p (PPoint i) then AVPoint PVNone else old
+  | ADone _ t => if path_eqb p PStatus then AVStatus (SVSome t) else old
+  | AUpdateTa i _ content => if path_eqb p (PTa i) then AVTa (Some content) else old
+  | ARemove p0 => if path_eqb p p0 then absent_view p else old
+  | ATouch _ => old
+  end.
+
+Lemma view_supd_other f q v p : p <> q -> view (supd f q v) p = view f p.
+Proof. intros H. unfold Model.view. destruct p; try rewrite supd_other by exact H; reflexivity. Qed.
+
+Lemma view_agree f g p : agree f g -> view f p = view g p.
+Proof. intros H. apply agree_view_eq; exact H. Qed.
+
+Lemma view_feq f g p : (forall q, g q = f q) -> view g p = view f p.
+Proof. intros H. apply view_eq_feq; exact H. Qed.
+
+Lemma header_inplace_view i h t f p :
+  wf_header rv hv h = true -> h_status h = LastAttempt t ->
+  view (srun [Create (PPoint i); Write (PPoint i) (enc_header h)] f) p =
+  if path_eqb p (PPoint i) then AVPoint PVNone else view f p.
+Proof.
+  intros Hh Hs.
+  rewrite (view_feq (supd f (PPoint i) (Some (enc_header h)))) by (intros q; apply inplace_run).
+  destruct (path_eqb_spec p (PPoint i)) as [->|Hn].
+  - unfold Model.view. rewrite supd_same.
+    rewrite (view_la_prefix h t (enc_header h) [] Hh Hs) by (rewrite app_nil_r; reflexivity). reflexivity.
+  - apply view_supd_other; exact Hn.
+Qed.
+
+Theorem run_action_view a f p :
+  wf_action a = true -> Inv f -> view (run_action true a f) p = post_view a p (view f p).
+Proof.
+  intros Hw HI. unfold Model.run_action.
+  destruct a as [i uri nt t | i tmp uri nt t m objs commit | i uri nt t | tmp t | i tmp content | p0 | tmp];
+    cbn [Model.wf_action] in Hw; cbn [Model.steps_of post_view].
+  - (* open *)
+    assert (Hcreate : point_view (f (PPoint i)) = PVAbsent \/ point_view (f (PPoint i)) = PVNone ->
+              view (srun (ops_of (create_steps i uri nt t)) f) p =
+              (if path_eqb p (PPoint i)
+               then match view f p with AVPoint (PVData _ _) => view f p | _ => AVPoint PVNone end
+               else view f p)).
+    { intros Hv. cbn [create_steps ops_of map k_op].
+      rewrite (header_inplace_view i _ t f p Hw eq_refl).
+      destruct (path_eqb_spec p (PPoint i)) as [->|Hn]; [|reflexivity].
+      unfold Model.view. destruct Hv as [-> | ->]; reflexivity. }
+    destruct (f (PPoint i)) as [b|] eqn:Eb; [|apply Hcreate; left; reflexivity].
+    destruct HI as [I1 I2]. pose proof (I1 i b Eb) as Hb.
+    destruct Hb as [(h0 & t0 & e & Hh0 & Hs0 & He) | (h0 & t0 & m & objs & Hh0 & Hs0 & Hm & Ho & ->)].
+    + (* a prefix of a LastAttempt header *)
+      pose proof (view_la_prefix h0 t0 b e Hh0 Hs0 He) as Hv.
+      destruct (run (read_header rv hv) b) as [[h rest]| | |pn] eqn:Er;
+        try (apply Hcreate; right; exact Hv).
+      * destruct (la_prefix_read h0 b e h rest Hh0 He Er) as [-> _]. rewrite Hs0.
+        cbn [ops_of map k_op].
+        assert (Hh' : wf_header rv hv (mkHeader (h_manifest_uri h0) (h_rpki_notify h0) (LastAttempt t)) = true).
+        { pose proof (wf_header_time _ _ _ Hw) as Ht. cbn [wf_status] in Ht.
+          destruct h0 as [u nn s]. cbn [h_status] in Hs0. subst s.
+          cbn [h_manifest_uri h_rpki_notify]. apply (wf_header_la u nn t0 t Hh0 Ht). }
+        rewrite (header_inplace_view i _ t f p Hh' eq_refl).
+        destruct (path_eqb_spec p (PPoint i)) as [->|Hn]; [|reflexivity].
+        unfold Model.view. rewrite Eb, Hv. reflexivity.
+      * (* cannot happen: the view would be PVFailed *)
+        unfold Model.point_view in Hv. rewrite Er in Hv. discriminate.
+    + (* a complete point: the file is only read *)
+      rewrite (rt_header rv hv hv_nonempty h0 _ Hh0), Hs0. cbn [ops_of map run_ops fold_left].
+      destruct (path_eqb_spec p (PPoint i)) as [->|Hn]; [|reflexivity].
+      unfold Model.view. rewrite Eb, (view_full h0 t0 m objs Hh0 Hs0 Hm Ho). reflexivity.
+  - (* update *)
+    apply andb_true_iff in Hw as [Hw Ho]. apply andb_true_iff in Hw as [Hh Hm].
+    rewrite ops_of_tmp_steps. destruct commit; cbn [andb].
+    + rewrite (view_agree _ _ p (tmp_rename_run tmp _ (PPoint i) f eq_refl)).
+      destruct (path_eqb_spec p (PPoint i)) as [->|Hn]; [|apply view_supd_other; exact Hn].
+      unfold Model.view. rewrite supd_same.
+      cbn [map snd concat]. rewrite map_map. cbn [snd]. rewrite <- flat_map_concat_map.
+      apply f_equal. apply (view_full (mkHeader uri nt (Success t)) t m objs Hh eq_refl Hm Ho).
+    + apply view_agree. intros q Hq.
+      pose proof (tmp_remove_crash tmp (map snd ((L_UPDATE_HEADER, enc_header (mkHeader uri nt (Success t)))
+        :: (L_UPDATE_MANIFEST, enc_manifest m) :: map (fun o => (L_UPDATE_OBJECT, enc_object o)) objs)) f
+        (S (length (tmp_pre tmp (map snd ((L_UPDATE_HEADER, enc_header (mkHeader uri nt (Success t)))
+        :: (L_UPDATE_MANIFEST, enc_manifest m) :: map (fun o => (L_UPDATE_OBJECT, enc_object o)) objs))))) None q Hq) as E.
+      rewrite crash_at_end in E by (rewrite app_length; cbn [length]; lia). exact E.
+  - (* reject *)
+    cbn [ops_of map k_op]. apply (header_inplace_view i _ t f p Hw eq_refl).
+  - (* done *)
+    rewrite ops_of_tmp_steps.
+    rewrite (view_agree _ _ p (tmp_rename_run tmp _ PStatus f eq_refl)).
+    destruct (path_eqb_spec p PStatus) as [->|Hn]; [|apply view_supd_other; exact Hn].
+    unfold Model.view. rewrite supd_same. cbn [map snd concat]. rewrite app_nil_r.
+    rewrite (status_view_written t Hw). reflexivity.
+  - (* update_ta *)
+    rewrite ops_of_tmp_steps.
+    rewrite (view_agree _ _ p (tmp_rename_run tmp _ (PTa i) f eq_refl)).
+    destruct (path_eqb_spec p (PTa i)) as [->|Hn]; [|apply view_supd_other; exact Hn].
+    unfold Model.view. rewrite supd_same. cbn [map snd concat]. rewrite app_nil_r. reflexivity.
+  - (* remove *)
+    cbn [ops_of map k_op run_ops fold_left step].
+    destruct (path_eqb_spec p p0) as [->|Hn]; [|apply view_supd_other; exact Hn].
+    unfold Model.view, absent_view. destruct p0; try rewrite supd_same; reflexivity.
+  - (* leftover temporary file *)
+    cbn [ops_of map k_op run_ops fold_left step].
+    destruct (path_eqb_spec p (PTmp tmp)) as [->|Hn]; [reflexivity | apply view_supd_other; exact Hn].
+Qed.
+
+Theorem next_run_congruent acts : forall f1 f2,
+  forallb wf_action acts = true -> Inv f1 -> Inv f2 -> view_eq f1 f2 ->
+  view_eq (run_actions true acts f1) (run_actions true acts f2).
+Proof.
+  induction acts as [|a acts IH]; intros f1 f2 Hw H1 H2 E; [exact E|].
+  cbn [forallb] in Hw. apply andb_true_iff in Hw as [Ha Hw].
+  rewrite !run_actions_cons. apply IH; [exact Hw | apply action_inv; assumption | apply action_inv; assumption|].
+  intros p. rewrite !run_action_view by assumption. rewrite (E p). reflexivity.
+Qed.
 
 End Proofs.
